@@ -431,7 +431,13 @@ func firstDiffConstruct(p1, p2 string, t2 *parser.ASTNode) (string, int) {
 	return best, line
 }
 
-func canon(v interface{}) string {
+func canon(v interface{}) string { return canonD(v, 0) }
+
+func canonD(v interface{}, depth int) string {
+	if depth > 40 {
+		return "<deep>"
+	}
+	canon := func(x interface{}) string { return canonD(x, depth+1) }
 	switch c := v.(type) {
 	case nil:
 		return "null"
